@@ -157,3 +157,23 @@ Theorem c01_every_accepted_file : forall bs z h t, load_bytes bs = OK (Some z) -
 Proof. exact accepted_break_refines_lemma. Qed.
 Print Assumptions c01_every_accepted_file.
 
+
+From CCTZ Require Import ZoneSpec C01Whole.
+
+(* C01 AS ONE STATEMENT.  For every byte string that the specification's own reader parses into a
+   well-formed file (wf_ast) inside the domain c01_domain (four boolean clauses on the parsed file, each
+   shown necessary in C01Whole.v by a machine-checked witness: not the F9 family; room for the footer's
+   types below index 256;
+   footer offsets that keep the seam ordered; rule instants that stay inside their own UTC year), the
+   loader accepts it and, for EVERY int64 instant and every hint, BreakTime reports exactly the civil
+   fields, offset, DST flag and abbreviation that the file's data designates (ZoneSpec.spec_lookup:
+   default type before the first transition, latest file transition inside the table, the POSIX footer
+   rule on the calendar beyond it). *)
+Theorem c01_whole_chain : forall bs h a,
+  parse_ast bs = Some (h, a) -> wf_ast h a = true -> c01_domain h a = true ->
+  exists z, load_bytes bs = OK (Some z) /\
+    forall hint t, int64 t -> exists al hint',
+      break_time z hint t = OK (al, hint') /\
+      spec_lookup (szone_of a) t = Some (mkSL (al_cs al) (al_off al) (al_dst al) (al_abbr al)).
+Proof. exact c01_whole. Qed.
+Print Assumptions c01_whole_chain.
